@@ -145,6 +145,15 @@ def specs(opts, prop="C13"):
         sc = [(T, E) for T in ("i8", "u8") for E in (-8, -3, -1, 0, 1, 3, 8)] + [("i16", -4), ("u16", -8), ("i16", 3)]
     for (T, E) in sc:
         out.append(("scaled", T, E))
+    if prop == "C14":
+        # 64-bit reps in 256-value slices: unsigned values with the top bit set, the largest values
+        if tier == "quick":
+            # (the magnitude claims on 19-digit numerals cost ~50 s per obligation: thorough tier only)
+            out.append(("scaled", "u64", 0, 22, (1 << 63, (1 << 63) + 255), ("well-formed-decimal", "sign-of-the-value")))
+        else:
+            out += [("scaled", "u64", 0, 22, (1 << 63, (1 << 63) + 255)),
+                    ("scaled", "u64", 0, 22, ((1 << 64) - 256, (1 << 64) - 1)), ("scaled", "u64", -1, 23, ((1 << 63) + 256, (1 << 63) + 511)),
+                    ("scaled", "i64", 0, 22, ((1 << 63) - 256, (1 << 63) - 1)), ("scaled", "i64", -2, 24, (-(1 << 63) + 1, -(1 << 63) + 256))]
     out.append(("positive", 6, 12, -99, 99) if tier == "quick" else ("positive", 19, 26, -99, 99))
     for (T, E, SG) in ([("i8", 12, "i16"), ("u8", 9, "i16"), ("i8", -12, "i16")] if tier == "quick" else
                        [(T, E, "i16") for T in ("i8", "u8") for E in (-16, -12, -5, 1, 5, 9, 12, 16)] + [("i8", 24, "i32"), ("u8", -24, "i32")]):
@@ -159,7 +168,7 @@ def build(opts, prop):
         if s[0] == "int":
             ks.append(mk_int(n, s[1], s[2], prop, symbolic_base=s[3]))
         elif s[0] == "scaled":
-            ks.append(mk_scaled(n, s[1], s[2], prop))
+            ks.append(mk_scaled(n, s[1], s[2], prop, *s[3:]))
         elif s[0] == "descale":
             ks.append(mk_descale(n, prop, *s[1:]))
         elif s[0] == "positive":
@@ -280,7 +289,7 @@ def mk_positive(name, prop, LD, N, elo, ehi):
                   tags={"family": "positive", "LD": LD})
 
 
-def mk_scaled(name, T, E, prop, N=12):
+def mk_scaled(name, T, E, prop, N=12, vrange=None, only=None):
     S = "cnl::scaled_integer<%s, cnl::power<%d>>" % (cpp(T), E)
     args = [("v", T), ("n", "u8"), Arg("buf", "u8", "buf", n=N, out=True), Arg("out", "i32", "arr", n=2, out=True, init="uninit")]
     body = ("    char* p = reinterpret_cast<char*>(buf);\n    auto r = cnl::to_chars(p, p + n, cnl::_impl::from_rep<%s>(v));\n"
@@ -290,6 +299,9 @@ def mk_scaled(name, T, E, prop, N=12):
         c = [env.a["n"] <= N]
         if signed(T):
             c.append(env.a["v"] > tmin(T))
+        if vrange is not None:
+            # 64-bit slices: adequate buffer only (n == N), the value is the subject
+            c += [env.a["v"] >= vrange[0], env.a["v"] <= vrange[1], X.eq(env.a["n"], N)]
         return X.And(*c)
 
     def claims(env, path):
@@ -309,18 +321,23 @@ def mk_scaled(name, T, E, prop, N=12):
                 cl.append(("byte%d-unchanged-outside-written-range" % i,
                            X.Implies(X.Or(n <= i, X.And(ok, p_off <= i)), X.eq(after[i], before[i]))))
         else:
-            cl += text_claims(after, p_off, ok, v, E, N)
+            cl += text_claims(after, p_off, ok, v, E, N, svr=(-14, 15) if vrange is None else (-4, 5))
+            if only is not None:
+                cl = [c for c in cl if c[0] in only]
         return cl
-    return Kernel(name, args, "i32", body, mode="int", alt_modes=("bv",), W=48 if prop == "C13" else 110, pre=pre, claims=claims, unwind=80, max_paths=40000,
-                  timeout=60, desc="to_chars(scaled_integer<%s,%d>)" % (T, E), tags={"family": "scaled", "T": T, "E": E})
+    return Kernel(name, args, "i32", body, mode="int", alt_modes=("bv",), W=48 if prop == "C13" else 110 + (0 if bits(T) <= 16 else 140), pre=pre, claims=claims, unwind=80, max_paths=40000,
+                  arg_ranges={"v": vrange, "n": (N, N)} if vrange is not None else None,
+                  vectors=(lambda rng: [dict({"v": rng.randint(*vrange), "n": N}, **{"buf_%d" % i: rng.randint(0, 255) for i in range(N)}) for _ in range(24)]) if vrange is not None else None,
+                  timeout=60, desc="to_chars(scaled_integer<%s,%d>)%s" % (T, E, "" if vrange is None else " v in [%d,%d], n = %d" % (vrange + (N,))),
+                  tags={"family": "scaled", "T": T, "E": E})
 
 
-def text_claims(b, L, ok, v, E, N):
+def text_claims(b, L, ok, v, E, N, svr=(-14, 15)):
     """parse  -?d+ | -?d*.d+ | -?d(.d+)?e-?d+  symbolically (fold over the N buffer positions) and compare the
     denoted decimal with the exact value v * 2^E: same sign, never above the true magnitude, less than one unit of the
     last printed digit below it"""
     valid, neg, m, s10 = parse_decimal(b, L, N)
-    return value_claims(valid, neg, m, s10, ok, v, E)
+    return value_claims(valid, neg, m, s10, ok, v, E, svr)
 
 
 def parse_decimal(b, L, N):
@@ -371,14 +388,14 @@ def parse_decimal(b, L, N):
     return valid, neg, m, s10
 
 
-def value_claims(valid, neg, m, s10, ok, v, E):
+def value_claims(valid, neg, m, s10, ok, v, E, svr=(-14, 15)):
     mag = X.absv(v)
     # exact |value| = mag * 2^E.  Compare m*10^s10 with mag*2^E without fractions: ladder over s10 in [-24, 24]
     A = mag * (1 << E) if E >= 0 else mag           # |value| * 2^max(-E,0)
     sc2 = 1 if E >= 0 else (1 << (-E))
     le = False
     near = False
-    for sv in range(-14, 15):
+    for sv in range(*svr):
         if sv >= 0:
             t = m * (10 ** sv) * sc2
             unit = (10 ** sv) * sc2
